@@ -181,10 +181,16 @@ func c06Leaf(e Ev) *c06Node {
 		if math.IsNaN(e.F) {
 			return &c06Node{K: "nan", S: fmt.Sprint(math.Float64bits(e.F)&(1<<51) == 0)}
 		}
+		if e.F == 0 && math.Signbit(e.F) {
+			return &c06Node{K: "negzero"} // the same datum as the integer -0: the encoders write both as "-0"
+		}
 		return &c06Node{K: "bfloat", S: c06BigFloatCanon(big.NewFloat(e.F))}
 	case "bf":
 		if e.BF == nil {
 			return &c06Node{K: "null"}
+		}
+		if e.BF.Sign() == 0 && e.BF.Signbit() {
+			return &c06Node{K: "negzero"}
 		}
 		return &c06Node{K: "bfloat", S: c06BigFloatCanon(e.BF)}
 	case "df":
@@ -193,6 +199,8 @@ func c06Leaf(e Ev) *c06Node {
 			return &c06Node{K: "nan", S: "true"}
 		case e.DF.IsNan():
 			return &c06Node{K: "nan", S: "false"}
+		case e.DF.IsNegativeZero():
+			return &c06Node{K: "negzero"}
 		}
 		return &c06Node{K: "dec", S: cDFloat(e.DF)}
 	case "bdf":
@@ -504,6 +512,11 @@ func c06Diff(a, b *c06Node) string {
 		}
 	case "map":
 		if a.FromRecord {
+			plain := *a
+			plain.FromRecord = false
+			if d := c06Diff(&plain, b); !c06GenericDiff(d) {
+				return d
+			}
 			return "record-fields-lost"
 		}
 		if a.RefKey {
@@ -1300,24 +1313,13 @@ func (q *c06Gen) leaf() []Ev {
 	case 2, 3:
 		mag := q.g.magnitude()
 		neg := r.Intn(3) == 0
-		if neg && mag == 0 {
-			mag = 1
-		}
 		return []Ev{q.g.intEvent(neg, mag)}
 	case 4:
 		return []Ev{{K: "bi", Big: q.g.bigInt()}}
 	case 5, 6:
-		bits := q.g.floatBits()
-		if bits == 1<<63 {
-			bits = 0 // negative zero does not survive (recorded finding): not part of the fragment
-		}
-		return []Ev{{K: "fl", F: math.Float64frombits(bits)}}
+		return []Ev{{K: "fl", F: math.Float64frombits(q.g.floatBits())}}
 	case 7:
-		d := q.g.dfloat()
-		if d.IsNegativeZero() {
-			d = compact_float.Zero()
-		}
-		return []Ev{{K: "df", DF: d}}
+		return []Ev{{K: "df", DF: q.g.dfloat()}}
 	case 8:
 		if r.Intn(2) == 0 {
 			return []Ev{{K: "bf", BF: q.g.bigFloat()}}
@@ -1340,9 +1342,12 @@ func (q *c06Gen) leaf() []Ev {
 			events.ArrayTypeInt8, events.ArrayTypeInt16, events.ArrayTypeInt32, events.ArrayTypeInt64, events.ArrayTypeFloat64}
 		t := ts[r.Intn(len(ts))]
 		n := uint64(r.Intn(16))
+		if r.Intn(4) == 0 {
+			n = uint64(16 + r.Intn(30)) // the CBE decoder delivers these in chunks
+		}
 		data := make([]byte, byteCountFor(t, n))
 		r.Read(data)
-		if t == events.ArrayTypeUint8 && r.Intn(2) == 0 {
+		if r.Intn(2) == 0 {
 			return q.g.chunked(Ev{K: "ab", A: t}, t, n, data)
 		}
 		return []Ev{{K: "a", A: t, N: n, Data: data}}
@@ -1647,20 +1652,7 @@ func c06Process(idx int, in c06Input) c06Result {
 			res.FragTerm = cApp("FragCase", cEvs(in.Evs), t, urls, times, cBool(valid))
 		}
 	}
-	// record types whose keys arrive in chunks alias the receiver's chunk buffer (not modelled): keep them out of the correspondence
-	inRT, chunkedKey := false, false
-	for _, e := range fwd {
-		switch e.K {
-		case "rt":
-			inRT = true
-		case "e":
-			inRT = false
-		case "ab":
-			if inRT {
-				chunkedKey = true
-			}
-		}
-	}
+	chunkedKey := false // record type keys are copied by the builder since /repo 7dbd995
 	// the three risky computations (builder fed directly, CBE document, CTE document) run side by side:
 	// a hang costs one timeout instead of three
 	type oracleOut struct {
